@@ -35,6 +35,7 @@ class World(object):
         self.jac_user = 0
         self.jac_requests = 0
         self.jac_completed = 0
+        self.jac_mark = (0, 0)     # (requests, completed) at the last reset
         self.fault_at = None
         w = self
 
@@ -123,7 +124,13 @@ def apply_op(w, op):
         elif k == "reset":
             a.reset()
             w.rhs_mark = w.rhs_completed
+            w.jac_mark = (w.jac_requests, w.jac_completed)
             w.since_reset = True
+        elif k == "settol":
+            # a setting changed between runs (the integrator is rebuilt): the counters keep counting
+            a.rtol = a.rtol * w.dtype(0.5)
+        elif k == "fresh":
+            a.set_method(method_of(w.cfg["method"]), preserve_states=False)
         elif k == "intdt":
             st = dict(n=0)
 
@@ -142,8 +149,10 @@ def apply_op(w, op):
 
 def ops_fn(cfg, hist):
     used = [o[0] for o in hist]
-    ops = [("int",), ("intT", 1.0), ("ev",), ("evterm",), ("fault", 7), ("fault", 30), ("reset",), ("intdt", 0.125)]
-    ops = [o for o in ops if not (o[0] in ("evterm", "intdt", "ev") and o[0] in used)]
+    ops = [("int",), ("intT", 1.0), ("ev",), ("evterm",), ("fault", 7), ("fault", 30), ("reset",), ("intdt", 0.125), ("settol",), ("fresh",)]
+    ops = [o for o in ops if not (o[0] in ("evterm", "intdt", "ev", "settol", "fresh") and o[0] in used)]
+    if not hist:
+        ops = [o for o in ops if o[0] not in ("settol", "fresh")]          # between runs: only after something has run
     if used.count("fault") >= 1:
         ops = [o for o in ops if o[0] != "fault"]
     if hist and hist[-1][0] == "reset":
@@ -177,7 +186,7 @@ def step(cfg, hist):
             observed=dict(nfev=int(a.nfev), completed_calls=want_nfev), expected="equal")
     # Jacobian counter: number of requests, counted since construction or since the last reset (either convention)
     nj = int(a.njev)
-    if nj not in (w.jac_requests, w.jac_completed) and not w.since_reset:
+    if nj not in (w.jac_requests, w.jac_completed, w.jac_requests - w.jac_mark[0], w.jac_completed - w.jac_mark[1]):
         r.v("C20/njev/%s" % name, "njev equals the number of Jacobian requests", case, observed=dict(njev=nj, requests=w.jac_requests, completed=w.jac_completed), expected="equal (a request that raised may or may not be counted)")
     if cfg["jac"] == "user" and w.jac_user not in (w.jac_requests, w.jac_completed):
         r.v("C20/user-jac-calls/%s" % name, "every Jacobian request is answered by the attached user Jacobian (one call each)", case,
@@ -264,7 +273,7 @@ def run(ctx):
                 "reset, integrate with a dt-assigning callback} from 8 method set-ups (explicit, FSAL-shaped, with rejections, splitting, implicit with finite-difference / user Jacobian, "
                 "Richardson) x dense on/off; reference = plain integer counters inside the user's functions and a log written by two callbacks; "
                 "distinct = distinct (set-up, dense, op-name history) classes" % depth)
-    ctx.assumptions += ["njev may count since construction or since the last reset (either convention); after a reset only the user-Jacobian call count is compared",
+    ctx.assumptions += ["njev may count since construction or since the last reset (either convention; the statement gives the 'since the last reset' clause to the function counter only)",
                         "Jacobian requests are counted at DiffRHS.jac (the seam the integrators call)"]
     cfgs = [dict(method=m, dt0=dt0, jac=j, dense=d) for (m, dt0, j) in SETUPS for d in (False, True)]
     cfgs += [dict(method=m, dt0=dt0, jac=j, dense=False, against=True) for (m, dt0, j) in SETUPS]
